@@ -391,6 +391,18 @@ func init() {
 					}
 				}
 			}
+			// large shapes, sparsely: size thresholds (fast paths for long buffers) are outside the small scope
+			var big []shape
+			for C := 1; C <= 3; C++ {
+				for _, P := range []int{9, 33, 130, 1025} {
+					for _, w := range [][2]int{{0, P}, {1, P - 2}, {P / 2, P / 3}} {
+						big = append(big, shape{C, P, w[0], w[1], 0})
+						if C > 1 {
+							big = append(big, shape{C, P, w[0], w[1] - 1, 1})
+						}
+					}
+				}
+			}
 			type job struct{ s, d int }
 			var jobs []job
 			for s := 0; s < dyn.NB; s++ {
@@ -398,6 +410,42 @@ func init() {
 					jobs = append(jobs, job{s, d})
 				}
 			}
+			c.ParallelFor(len(jobs), func(ji int) {
+				jb := jobs[ji]
+				var n int64
+				for _, sh := range big {
+					if sh.P > 200 && c.Quick() && ji%6 != 0 {
+						continue // the longest roots for every sixth pair only in the quick tier
+					}
+					total := sh.C*sh.L + sh.R
+					base := c01Case{S: tn(jb.s), D: tn(jb.d), C: sh.C, P: sh.P, X: sh.X, L: sh.L, R: sh.R, Fam: ji % 2}
+					for _, l := range []int{0, 1, total / 2, total - 1, total, total + 1, total + 64} {
+						for _, k := range []string{"write", "read"} {
+							cs := base
+							cs.Kind, cs.Lens = k, []int{l}
+							n++
+							if fs := c01Run(cs); len(fs) > 0 {
+								c.Fail(cs, fs...)
+							}
+						}
+					}
+					if sh.R != 0 {
+						continue
+					}
+					for _, pat := range [][]int{{sh.L, sh.L, sh.L}, {sh.L + 2, sh.L / 2, -1}, {1, sh.L - 1, sh.L}, {-1, -1, sh.L + 1}} {
+						for _, k := range []string{"wstriped", "rstriped"} {
+							cs := base
+							cs.Kind, cs.Lens = k, append([]int{}, pat[:sh.C]...)
+							n++
+							if fs := c01Run(cs); len(fs) > 0 {
+								c.Fail(cs, fs...)
+							}
+						}
+					}
+				}
+				c.Eval(n, n)
+				c.Add("large_shape_cases", n)
+			})
 			c.ParallelFor(len(jobs), func(ji int) {
 				jb := jobs[ji]
 				var n, nt int64
@@ -462,7 +510,7 @@ func init() {
 			})
 			c.Sample(c01Case{Kind: "wstriped", S: "int8", D: "float32", C: 3, P: 3, X: 1, L: 2, Lens: []int{-1, 3, 1}, Fam: 1})
 			c.Sample(c01Case{Kind: "read", S: "uint16", D: "int64", C: 2, P: 3, X: 1, L: 1, R: 1, Lens: []int{5}, Fam: 0})
-			c.Set("rule", fmt.Sprintf("all 169 slice/buffer element-type pairs x C in 1..%d x root of P<=%d frames x every frame-aligned window (X,L) x partly filled last frames (interleaved forms) x Write/Read with slice length nil,0..Len+2 and WriteStriped/ReadStriped with every combination of per-channel lengths from {nil,0..L+1} x two value families (distinct tokens; extremes of the integer range exactly representable in both types); after each call the whole parent storage, the shapes, the caller's slices and the return value are compared with the model, and what was written is read back with both readers; non-trivial = at least one sample is transferred; cases distinct by construction", maxC, maxP))
+			c.Set("rule", fmt.Sprintf("all 169 slice/buffer element-type pairs x C in 1..%d x root of P<=%d frames x every frame-aligned window (X,L) x partly filled last frames (interleaved forms) x Write/Read with slice length nil,0..Len+2 and WriteStriped/ReadStriped with every combination of per-channel lengths from {nil,0..L+1} x two value families (distinct tokens; extremes of the integer range exactly representable in both types); after each call the whole parent storage, the shapes, the caller's slices and the return value are compared with the model, and what was written is read back with both readers; non-trivial = at least one sample is transferred; cases distinct by construction; in addition a sparse set of large shapes (roots of 9, 33, 130, 1025 frames, 1-3 channels, 3 windows each, input lengths around the buffer length) for all 169 pairs, against size-threshold fast paths", maxC, maxP))
 			c.Assume("values are integers exactly representable in both element types (the property's domain)", "windows are made with Slice and partly filled frames with AppendSample")
 		},
 		RunCase: func(c *core.Ctx, raw json.RawMessage) []F { return c01Run(decode[c01Case](raw)) },
